@@ -54,13 +54,13 @@ theorem assocD_of_mem (d : Tag) {l : List (Tag × Tag)} (hl : (l.map Prod.fst).N
   | cons p l ih =>
     rcases p with ⟨a', b'⟩
     rw [List.map_cons, List.nodup_cons] at hl
-    rcases List.mem_cons.1 h with h | h
-    · cases h
+    rcases List.mem_cons.1 h with h2 | h2
+    · cases h2
       simp [assocD]
     · have hne : a ≠ a' := by
         rintro rfl
-        exact hl.1 (List.mem_map.2 ⟨(a, b), h, rfl⟩)
-      simp [assocD, hne, ih hl.2 h]
+        exact hl.1 (List.mem_map.2 ⟨(a, b), h2, rfl⟩)
+      simp [assocD, hne, ih hl.2 h2]
 
 theorem map_eq_of_zip (f : Tag → Tag) : ∀ (X Y : List Tag), X.length = Y.length →
     (∀ p ∈ List.zip X Y, f p.1 = p.2) → X.map f = Y
@@ -128,7 +128,8 @@ theorem renamed_of_assoc (c0 : Tag) (L : List (Tag × Tag)) (hL : (L.map Prod.fs
         refine List.eq_replicate_iff.2 ⟨rfl, ?_⟩
         intro b hb
         exact hc' b (List.mem_append_left _ (List.mem_filter.1 hb).1) (List.mem_filter.1 hb).2
-      refine ((List.filter_append_perm commonTag m).symm.map _).trans ?_
+      have hpm : (m.filter commonTag ++ freshTags m).Perm m := List.filter_append_perm commonTag m
+      refine (hpm.symm.map _).trans ?_
       rw [List.map_append, hcm, hfm, hmc, ← hcm']
       exact List.filter_append_perm commonTag m'
 
